@@ -44,7 +44,8 @@ fn data(kind: usize, len: usize) -> Vec<u8> {
 /// C15: forms with 0..2 text fields and 0..2 files; data with CR/LF/dashes; sizes around the 8 KiB copy buffer; the body read with
 /// several buffer sizes is identical and decodes to exactly the parts that were added
 #[test]
-fn vp_native_multipart_roundtrip() {
+fn vp_native_multipart_roundtrip() { crate::verif_native_watchdog::watched(vp_native_multipart_roundtrip_body); }
+fn vp_native_multipart_roundtrip_body() {
     let sizes = [0usize, 1, 8191, 8192, 8193, 70000];
     let mut cases = 0u64;
     for ntext in 0..=2usize { for nfiles in 0..=2usize { for (si, &size) in sizes.iter().enumerate() { for kind in 0..3usize {
